@@ -73,10 +73,11 @@ std::string job( int t, int r)
          strs_txt += std::string( "p") + SEPS[ (t + r + k + 1) % 16] + "q" + std::to_string( k);
          upper_txt += std::string( "w") + std::to_string( t) + "x" + std::to_string( k);
       }
-      std::string  line = "-i " + ints_txt + " --strs " + strs_txt + " -u " + upper_txt
+      // (a required argument has to follow the one that requires it)
+      std::string  line = std::string( (t + r) % 3 == 0 ? "-c 5 " : "")
+                          + "-i " + ints_txt + " --strs " + strs_txt + " -u " + upper_txt
                           + " -l " + std::to_string( 1 + (t + r) % 50)
                           + " -n thread" + std::to_string( t);
-      if ((t + r) % 3 == 0) line += " -c 5";
       if ((t + r) % 2 == 0) line += " -f";
       if ((t + r) % 7 == 6) line += " -l 99";          // violates the upper limit: rejected
       if ((t + r) % 11 == 10) line += " --unknown 1";  // unknown argument: rejected
